@@ -178,6 +178,15 @@ def run(ctx) -> Result:
         sc = {"jobs": jobs, "converter": conv, "policy": {"kind": "const", "us": 200_000}, "horizon_s": 9.0}
         o = vtime.run(lambda loop, s=sc: scenario(s), budget=40_000_000)
         check(o, model, res, f"results-{conv}")
+    # the same with the Redis message broker and the Redis bucket broker (in-process fake server), and on RabbitMQ
+    for kind, rk in (("redis", "redis"), ("rabbit", None)):
+        rng = Rng(seed, f"c13/{kind}")
+        jobs = make_jobs(rng, 40 if deep else 20)
+        sc = {"jobs": jobs, "converter": "basic", "policy": {"kind": "const", "us": 200_000}, "horizon_s": 12.0, "broker": kind,
+              "results_kind": rk}
+        o = vtime.run(lambda loop, s=sc: scenario(s), budget=80_000_000)
+        check(o, model, res, f"results-{kind}")
+        res.dist[f"broker:{kind}"] += len(jobs)
     # fault enumeration: the k-th store_bucket call raises
     rng = Rng(seed, "c13/faults")
     jobs = make_jobs(rng, 6)
